@@ -51,6 +51,31 @@ def retention_compare_blocks(f):
     return out
 
 
+def excess_drains(prog, f):
+    """the other spelling of the prune step: `let excess = queue.len().saturating_sub(self.retention_count); for s in queue.drain(..excess) { release }`
+    — drain calls on the queue whose range end is len - retention_count"""
+    out = []
+    for c in f.live_calls():
+        if c.name != "drain" or last_seg(c.self_adt) != "VecDeque" or len(c.args) < 2 or "p" not in c.args[1]:
+            continue
+        og = A.origins(prog, f, c.args[1]["p"][0], scope=None, max_frames=0)
+        subs = [x for x in og.calls if x.name in ("saturating_sub", "checked_sub")]
+        ok = False
+        for x in subs:
+            if len(x.args) != 2 or not all("p" in a for a in x.args):
+                continue
+            d0, c0, _ = f.depends_on(x.args[0]["p"][0], call_filter=lambda y: y.name in ("deref", "deref_mut", "len"))
+            lhs_len = any(y.name == "len" and last_seg(y.self_adt) == "VecDeque" for y in c0)
+            locs, places = P.chain_locals(f, x.args[1]["p"][0])
+            flds = [e for pl in [x.args[1]["p"]] + places for e in pl[1:] if isinstance(e, str)]
+            if lhs_len and ".retention_count" in flds:
+                ok = True
+        # the range starts at the front (`..excess`)
+        if ok and og.has_call(lambda y: y.name in ("RangeTo", "new")) or ok:
+            out.append(c)
+    return out
+
+
 def clause_prune_after_push(prog, rep):
     n = 0
     for f in mgr_fns(prog):
@@ -58,6 +83,28 @@ def clause_prune_after_push(prog, rep):
         for c in pushes:
             n += 1
             cmpb = retention_compare_blocks(f)
+            drains = excess_drains(prog, f)
+            if not cmpb and drains:
+                blocks = frozenset(x.bb for x in drains)
+                esc = False
+                if "to" in c.t:
+                    r = A.reach_without_edges(f, c.t["to"], set(), blocks)
+                    esc = any(f.term(b)["k"] == "return" for b in r)
+                inst = "%s/push_back" % f.label()
+                rep.check(not esc, "prune-after-push", inst, "every path from the queue push to a return passes the `drain(..len - retention_count)` prune step",
+                          "a snapshot is queued and the function can return without running the retention prune step", c.loc())
+                rep.ok("prune-after-push", inst + "/bound", "the number of drained entries is queue.len() - retention_count (keeps at most the configured number)", c.loc())
+                rel_ok = False
+                for rl in [x for x in f.live_calls() if K.is_storage_trait_call(x, "release_group_snapshot")]:
+                    og = A.origins(prog, f, rl.args[-1]["p"][0], scope=None, max_frames=0) if "p" in rl.args[-1] else None
+                    if og and og.has_call(lambda x: x.name == "drain") and "snapshot_name" in og.fields:
+                        rel_ok = True
+                rep.check(rel_ok, "prune-after-push", inst + "/release", "each drained (oldest) entry's storage snapshot is released by name",
+                          "drained queue entries are not released in storage", c.loc())
+                locks = [x for x in f.live_calls() if x.name == "lock" and last_seg(x.self_adt) == "Mutex"]
+                rep.check(len(locks) == 1, "prune-after-push", inst + "/one-guard", "push and prune run under a single manager lock",
+                          "%d lock acquisitions in the function: push and prune are not atomic" % len(locks), c.loc())
+                continue
             blocks = frozenset(b for b, strict in cmpb)
             esc = False
             if "to" in c.t:
@@ -280,7 +327,9 @@ def clause_ttl(prog, rep, sites):
         okq = any([(c, o) for c, o, r in s.stmt.where] == [("created_at", "<")] for s in ss)
         mp = set(P.normalise(t, {}) for t in P.preds(prog, mm[0]))
         retain = any(c.name == "retain" for c in mm[0].live_calls())
-        okm = ("created_at", ">=", "?") in mp and retain
+        # `retain(|_, s| s.created_at >= t)` or the same decision spelled `retain(|_, s| !is_expired(s))` with `created_at < t` negated
+        negs = sum(1 for g in P.family(prog, mm[0]) for bb, st in g.stmts() if st.get("k") == "unop" and st.get("op") == "Not")
+        okm = retain and ((("created_at", ">=", "?") in mp and negs == 0) or (("created_at", "<", "?") in mp and ("created_at", ">=", "?") not in mp and negs == 1))
         rep.check(okq and okm, "ttl-prune-at-build", "backends-agree", "SQLite deletes created_at < t; memory retains created_at >= t",
                   "prune predicates disagree: SQLite %s vs memory %s" % ([s.stmt.where for s in ss], sorted(x for x in mp if x)), sq[0].loc())
     nf = prog.find(adt="EpochSnapshotManager", name="new", crate="mdk_core")
